@@ -165,7 +165,12 @@ func (st *c09State) apply(a Action) {
 			return
 		}
 		st.newN++
-		ch := &world.Demon{ID: uint32(0x0c000000 + st.newN*0x111 + st.r.Intn(0xff)), Key: randBytes(st.r, 32), IV: randBytes(st.r, 16), Meta: genMeta(st.r, 2), Parent: nil, Port: P.Port}
+		id := uint32(0x0c000000 + st.newN*0x111 + st.r.Intn(0xff))
+		if st.r.Intn(2) == 0 {
+			id |= 0x80000000 // ids with the top bit set (everything that parses ids as signed 32 bit)
+			res.Probe("agents-with-id-above-2^31")
+		}
+		ch := &world.Demon{ID: id, Key: randBytes(st.r, 32), IV: randBytes(st.r, 16), Meta: genMeta(st.r, 2), Parent: nil, Port: P.Port}
 		var pb world.PB
 		pb.Int32(world.PivotSMBConnect).Int32(1).Bytes(ch.InitPacket())
 		P.Out = append(P.Out, world.Pkg{Cmd: world.CmdPivot, RID: 0, Body: pb.B})
